@@ -126,7 +126,7 @@ def c01a(ctx):
               fail='the axis-order switch does not swap exactly indices (1, 0, 3, 2) under is_axis_order_ne')
 
 
-SUB_SITES = [('mapproxy/service/wms.py:WMSServer.map', 'params.size', 'orig_query.size'),
+SUB_SITES = [('mapproxy/service/wms.py:WMSServer.map', 'map_request.params.size', 'orig_query.size'),
              ('mapproxy/layer.py:CacheMapLayer.get_map', 'query.size', 'query.size'),
              ('mapproxy/source/wms.py:WMSSource._get_sub_query', 'query.size', 'query.size')]
 
@@ -155,7 +155,7 @@ def c01b(ctx):
         ctx.check(ok, '%s:placement-uses-offset' % fn.short, 'SubImageSource(resp, size=<original size>, offset=<offset of that call>)', fn, si[0] if si else c,
                   fail='the sub image is placed with %s / size %s instead of the offset (element 1) and the original query size' % (
                       unparse(keyword(si[0], 'offset', 2)) if si else '?', unparse(keyword(si[0], 'size', 1)) if si else '?'))
-        ok = unparse(c.args[1]) == size_in and len(c.args) == 3
+        ok = same(c.args[1], size_in) and len(c.args) == 3
         ctx.check(ok, '%s:position-args' % fn.short, 'bbox_position_in_image(<query bbox>, <query size>, <extent bbox in the query SRS>)', fn, c)
     bp = ctx.fn('mapproxy/image/__init__.py:bbox_position_in_image')
     rets = returns_of(bp.node)
